@@ -38,6 +38,9 @@ void sch_thread_begin(int tid);
 void sch_thread_end(int tid);
 void sch_yield(int tid, int site, uint32_t aux);
 int sch_run(uint32_t watchdog_seconds);
+void sch_release_threads(void);
+int sch_self(void);                   // simulated id of the calling thread, -1 outside the simulation
+void sch_blocked(int tid, int what);  // yield as 'blocked on a primitive' (sim/blockwrap.cpp)  // after sch_run: let the parked, finished threads exit
 uint32_t sch_seq(void);
 uint32_t sch_steps(void);
 uint32_t sch_switches(void);
